@@ -331,6 +331,8 @@ def shrink(family, spec, vdict, budget=120, wall_s=240):
     """Delta debugging over the explicit night: drop ops, drop units / counties / states, fewer levels,
     aggregates, estimands -- keeping only candidates that fail with the same (clause, flags)."""
     want = sig_of_dict(vdict)
+    if "world" not in spec or not spec.get("ops"):
+        return spec
     best = copy.deepcopy(spec)
     t0 = time.time()
     runs = [0]
@@ -467,7 +469,7 @@ def replay_in_fresh_process(prop, path):
 # ------------------------------------------------------------------------------------------ batch driver
 
 
-def run_batch(prop, tier, nights=None, workers=None, wall_s=None, seed=None):
+def run_batch(prop, tier, nights=None, workers=None, wall_s=None, seed=None, indices=None):
     family = load_family(prop)
     b = family.budget(tier)
     nights = int(nights if nights is not None else b["nights"])
@@ -481,13 +483,14 @@ def run_batch(prop, tier, nights=None, workers=None, wall_s=None, seed=None):
     ctx = mp.get_context("fork")
     with cf.ProcessPoolExecutor(max_workers=workers, mp_context=ctx, initializer=_worker_init, initargs=(prop,)) as ex:
         pending = {}
-        next_idx = 0
+        todo = list(indices) if indices is not None else list(range(nights))
+        pos = 0
         stop_submitting = False
         while True:
-            while not stop_submitting and next_idx < nights and len(pending) < workers * 2:
-                f = ex.submit(_worker, (prop, seed, next_idx, tier, hang_s))
-                pending[f] = next_idx
-                next_idx += 1
+            while not stop_submitting and pos < len(todo) and len(pending) < workers * 2:
+                f = ex.submit(_worker, (prop, seed, todo[pos], tier, hang_s))
+                pending[f] = todo[pos]
+                pos += 1
             if not pending:
                 break
             done, _ = cf.wait(list(pending), timeout=5, return_when=cf.FIRST_COMPLETED)
@@ -501,7 +504,7 @@ def run_batch(prop, tier, nights=None, workers=None, wall_s=None, seed=None):
                     harness_errors.append((idx, r["harness_error"]))
                 else:
                     results[idx] = r
-            if time.time() - t0 > wall_s:
+            if time.time() - t0 > wall_s and indices is None:
                 stop_submitting = True
             if harness_errors:
                 stop_submitting = True
